@@ -163,6 +163,9 @@ type System struct {
 	events       int
 	rebroadcasts int
 	byzSent      int
+	probes       int                  // forged-message probes of the validators (forge.go)
+	validated    map[int]map[int]bool // validated[p][m]: p's validator has accepted message m
+	lastProbe    map[int][5]uint64
 	// liveness accounting
 	stabRound uint64 // max honest round at the last deviation / release
 	ended     string
@@ -370,7 +373,7 @@ func (a action) String() string {
 		return "P0"
 	case 'T', 'E':
 		return fmt.Sprintf("%c%d", a.kind, a.to)
-	case 'B', 'A':
+	case 'B', 'A', 'F':
 		return fmt.Sprintf("%c%s>%d", a.kind, a.spec, a.to)
 	default:
 		return fmt.Sprintf("%c%d>%d", a.kind, a.msg, a.to)
@@ -390,7 +393,7 @@ func parseAction(s string) (action, error) {
 		n, err := strconv.Atoi(rest)
 		a.to = n
 		return a, err
-	case 'B', 'A':
+	case 'B', 'A', 'F':
 		i := strings.LastIndexByte(rest, '>')
 		if i < 0 {
 			return a, fmt.Errorf("bad action %q", s)
@@ -602,6 +605,20 @@ func (s *System) apply(a action) error {
 		rec := s.addMsg(s.w.sc.Byz, m, true)
 		s.byzSent++
 		s.deliver(rec, a.to)
+	case 'F':
+		// a forgery the target's validator was found not to be sound against (forge.go): presented twice through
+		// the route it was accepted on, received whenever accepted
+		if len(a.spec) < 2 || s.hosts[a.to] == nil {
+			return fmt.Errorf("bad forgery %q", a.spec)
+		}
+		m, err := s.forgeBuild(a.spec[1:])
+		if err != nil {
+			return fmt.Errorf("forge %s: %w", a.spec, err)
+		}
+		rec := s.addMsg(s.w.sc.Byz, m, true)
+		s.byzSent++
+		s.deliverVia(rec, a.to, a.spec[0])
+		s.deliverVia(rec, a.to, a.spec[0])
 	case 'A':
 		m, err := s.byzBuild(a.spec)
 		if err != nil {
@@ -667,17 +684,34 @@ func (s *System) fire(i int) {
 }
 
 func (s *System) deliver(rec *msgRec, to int) {
+	route := byte('1')
+	if s.mode.Wire {
+		route = '2'
+	}
+	s.deliverVia(rec, to, route)
+}
+
+// deliverVia: route '1' validates the complete message in one shot (production: the chain is already known when
+// the message arrives), route '2' in two stages (production: the chain is learnt after the message).
+func (s *System) deliverVia(rec *msgRec, to int, route byte) {
 	h := s.hosts[to]
 	if h == nil {
 		return
 	}
 	p := s.parts[to]
 	before := p.Progress()
-	vm, err := p.ValidateMessage(ctx, rec.msg)
+	vm, err := validateVia(p, rec.msg, route)
 	s.mon.onValidation(to, rec, before, err)
 	if err != nil {
 		return
 	}
+	if s.validated == nil {
+		s.validated = map[int]map[int]bool{}
+	}
+	if s.validated[to] == nil {
+		s.validated[to] = map[int]bool{}
+	}
+	s.validated[to][rec.id] = true
 	s.mon.onAccepted(to, rec, before)
 	err = p.ReceiveMessage(ctx, vm)
 	s.mon.onAPIError(to, "ReceiveMessage", err)
